@@ -36,6 +36,9 @@ def gen_c11_spec(rng: random.Random) -> Dict[str, Any]:
         if rng.random() < 0.3:
             outs = [rng.choice(FAILS)] * L  # always failing
         beh = [{"dur": list(rng.choice([[], ["y"], [0.01], [0.1]])), "out": o, "value": k} for k, o in enumerate(outs)]
+        for b in beh:
+            if b["out"] == "noresult" and rng.random() < 0.4:
+                b["noresult_sub"] = True  # signalled with a subclass of NoResultError: still "no result", never a failure
         labels: Dict[str, Any] = dict(rng.choice(EXTRA_LABELS))
         mr_kind = rng.choice(["int", "str", "absent"])
         mr = rng.randint(0, 6)
